@@ -100,6 +100,8 @@ Unreachable == OscDisc \ FromDom
 VARIABLE code
 TInit == code = 0
 TNext == code < 65535 /\ code' = code + 1
+\* every named code survives: the names whose code has no from_u16 entry
+LostNames(names, dom) == {names[i] : i \in {j \in DOMAIN names : names[j].c \notin dom}}
 LkReport(names, rows) ==
   \A r \in RowsOf(rows) :
     LET bad == LkBadIn(names, r) IN
@@ -116,7 +118,8 @@ GlobalProbe == code = 0 =>
   /\ (T_FromInEnum \/ PrintT(<<"TERR", ToJson([req |-> "from_u16 yields a value outside the OsCode enum",
                                                 codes |-> FromDom \ OscDisc])>>))
   /\ (T_NamesFunctional \/ PrintT(<<"TERR", ToJson([req |-> "a key name denotes two codes"])>>))
-  /\ (T_NamesInDomain \/ PrintT(<<"TERR", ToJson([req |-> "a key name denotes a code from_u16 does not know"])>>))
+  /\ (T_NamesInDomain \/ PrintT(<<"TERR", ToJson([req |-> "a key name denotes a code from_u16 does not know",
+                                                 names |-> LostNames(Names, FromDom)])>>))
   /\ (T_NamePositions \/ PrintT(<<"TERR", ToJson([req |-> "a key name denotes different codes in different positions",
         names |-> {NamePos[i] : i \in {j \in DOMAIN NamePos :
                      LET r == NamePos[j] IN ~(PosOk(r.src, r.c) /\ PosOk(r.act, r.c) /\ PosOk(r.lmap, r.c)
